@@ -25,7 +25,24 @@ mod sim;
 mod util;
 mod world;
 
+/// VH_LOG=<level>: the log lines of rs-matter on stderr, stamped with the virtual time (debugging aid only)
+struct VLog;
+impl log::Log for VLog {
+    fn enabled(&self, _: &log::Metadata) -> bool {
+        true
+    }
+    fn log(&self, r: &log::Record) {
+        eprintln!("[{:>7} ms] {} {}: {}", sim::now_ms(), r.level(), r.target(), r.args());
+    }
+    fn flush(&self) {}
+}
+
 fn main() {
+    if let Ok(l) = std::env::var("VH_LOG") {
+        static L: VLog = VLog;
+        let _ = log::set_logger(&L);
+        log::set_max_level(l.parse().unwrap_or(log::LevelFilter::Debug));
+    }
     let args: Vec<String> = std::env::args().collect();
     let cmd = args.get(1).map(|s| s.as_str()).unwrap_or("");
     // the combined futures of several Matter stacks are large: run everything on a big stack
